@@ -137,6 +137,8 @@ func runSearch[S any](t *vlib.T, b *base, sys vseq.System[S]) {
 	}
 	t.Detail(detail)
 	if viol != nil {
+		t.Count("untagged_violations", 1)
+		t.Count(fmt.Sprintf("untagged_in:%s (history length %d)", name, len(viol.History)), 1)
 		t.SubViolation(fmt.Sprintf(" history=%v", viol.History), "", map[string]any{"history": viol.History, "container": b.label, "variant": b.variant}, "%s: %s", name, viol.Msg)
 	}
 	reportFindings(t, b, sys, name, viol != nil)
@@ -231,6 +233,8 @@ func runLong[S any](t *vlib.T, b *base, sys vseq.System[S], seed uint64, steps, 
 	t.Outcome(b.label + " long")
 	t.Detail(map[string]any{"container": b.label, "variant": b.variant, "operations": applied, "oracle_runs": checks})
 	if msg != "" {
+		t.Count("untagged_violations", 1)
+		t.Count("untagged_in:"+name, 1)
 		t.SubViolation(fmt.Sprintf(" long history seed=%d step=%d", seed, len(hist)), "", map[string]any{"history": hist, "container": b.label, "variant": b.variant}, "%s after %d operations (last: %s): %s", name, len(hist), hist[len(hist)-1], msg)
 	}
 	reportFindings(t, b, sys, name, msg != "")
